@@ -15,6 +15,7 @@ from rogw.tranp.syntax.node.definition.terminal import Empty
 from rogw.tranp.syntax.node.embed import Meta, accept_tags, expandable
 from rogw.tranp.syntax.node.interface import IDeclaration, ISymbol, StatementBlock
 from rogw.tranp.syntax.node.node import Node
+from rogw.tranp.errors import Errors
 
 T_Declable = TypeVar('T_Declable', bound=Declable)
 
@@ -330,7 +331,13 @@ class ClassDef(Node, IDomain, IScope, INamespace, IDeclaration, ISymbol):
 	@property
 	def actual_symbol(self) -> str | None:
 		embedder = self._dig_embedder(__actual__.__name__)
-		return embedder.arguments[0].value.as_a(String).as_string if embedder else None
+		if embedder is None:
+			return None
+
+		if len(embedder.arguments) == 0:
+			raise Errors.InvalidSchema(self, f'Missing name argument. decorator: {__actual__.__name__}')
+
+		return embedder.arguments[0].value.as_a(String).as_string
 
 	@property
 	def alias_embedder(self) -> Decorator | None:
